@@ -2,7 +2,6 @@ package main
 
 import (
 	"bytes"
-	"encoding/binary"
 	"encoding/json"
 	"fmt"
 	"os"
@@ -224,7 +223,10 @@ func walWrap(limit int, pairs []string) string {
 	if _, err := pgdump.GetRecentWALRecords(filepath.Join(dir, "nosuch"), 5); err == nil {
 		d.check("recent-missing-dir", false)
 	}
-	return d.verdict(fmt.Sprintf("%d/%d", segs, len(all)))
+	// observable = the number of segments ParseWALFile accepts (its only error is "file too small"); the record
+	// count is compared between wrapper and parser above, but is not part of what the model is asked for, so that the
+	// family does not depend on which revision of the record parser the wal model describes
+	return d.verdict(fmt.Sprint(segs))
 }
 
 func toastWrap(relid uint32, file, ptrs []byte) string {
@@ -357,8 +359,6 @@ func segWrap(name string, file []byte, segSize, segNum int, hasOpts bool) string
 	return d.verdict(fmt.Sprintf("%d/%d", len(file), nb))
 }
 
-var anything = regexp.MustCompile("")
-
 // dirWrap: a data directory (a generated cluster with some files damaged, truncated, replaced by garbage or removed)
 // through every dataDir-taking entry point; each is compared with the composition of byte-level parsers it stands for
 func dirWrap(ver int, heavy bool, files []string) string {
@@ -397,6 +397,7 @@ func dirWrap(ver int, heavy bool, files []string) string {
 		d.check("AnalyzeTOAST-nodb", e6 != nil)
 		pgdump.ReadAllRelMaps(dir)
 		pgdump.VerifyDataDirChecksums(dir)
+		detectChecks(&d, dir, false)
 		return d.verdict("dir")
 	}
 	dbs := pgdump.ParsePGDatabase(dbF)
@@ -530,6 +531,7 @@ func dirWrap(ver int, heavy bool, files []string) string {
 	pgdump.VerifyDataDirChecksums(dir)
 	pgdump.ExtractPasswords(dir)
 	pgdump.ReadControlFile(dir)
+	detectChecks(&d, dir, len(dbF) > 0)
 	if heavy {
 		// secret scan of the directory = secret scan of its dump (a fresh scanner per call: only on some cases)
 		for _, o := range []*pgdump.Options{{SkipSystemTables: true}} {
@@ -572,7 +574,31 @@ func dirWrap(ver int, heavy bool, files []string) string {
 	return d.verdict("dir")
 }
 
+// detectChecks: auto-detection through $PGDATA (the sandbox has no PostgreSQL installation of its own): the directory
+// is found iff global/1262 is a non-empty regular file, and DumpAll is then DumpDataDir of it
+func detectChecks(d *diffs, dir string, valid bool) {
+	os.Setenv("PGDATA", dir)
+	defer os.Unsetenv("PGDATA")
+	got := pgdump.DetectDataDir()
+	all := pgdump.DetectAllDataDirs()
+	res, err := pgdump.DumpAll(nil)
+	if valid {
+		d.check("DetectDataDir", got == dir)
+		d.check("DetectAllDataDirs", len(all) >= 1 && all[0] == dir)
+		want, werr := pgdump.DumpDataDir(dir, nil)
+		d.check("DumpAll", err == nil && werr == nil && len(res) >= 1 && res[0] != nil && want != nil && sh(*res[0]) == sh(*want))
+	} else {
+		d.check("DetectDataDir-invalid", got != dir)
+		for _, a := range all {
+			d.check("DetectAllDataDirs-invalid", a != dir)
+		}
+		d.check("DumpAll-invalid", err == nil)
+	}
+}
+
 func init() {
+	// the 1-in-16 directory cases that run the secret scanner build two fresh trufflehog scanners: allow for a loaded machine
+	core.SetEnvelope("filewrap", 512, 64<<20, 30000)
 	core.Register("filewrap", func(args []string) string {
 		switch args[0] {
 		case "control":
@@ -599,6 +625,4 @@ func init() {
 		}
 		return "bad-args"
 	})
-	_ = binary.LittleEndian
-	_ = anything
 }
